@@ -477,6 +477,18 @@ typedef unsigned long uintptr_t;
                                            (void *)src, ESNULLP);              \
         return RCNEGATE(ESNULLP);                                              \
     }
+/* a null argument other than dest: dest still gets its terminator when dest
+   and dmax themselves are usable (K.3.6.5, K.3.9.3: "sets dst[0] to the null
+   character") */
+#define CHK_ARG_NULL_TERM(func, arg, max, type)                                \
+    if (unlikely((arg) == NULL)) {                                             \
+        if (dest && dmax > 0 && dmax <= (max) &&                               \
+            (destbos == BOS_UNKNOWN || dmax * sizeof(type) <= destbos))        \
+            *dest = 0;                                                         \
+        invoke_safe_str_constraint_handler(func ": " _XSTR(arg) " is null",    \
+                                           (void *)dest, ESNULLP);             \
+        return RCNEGATE(ESNULLP);                                              \
+    }
 #define CHK_SRC_NULL_CLEAR(func, src)                                          \
     if (unlikely(src == NULL)) {                                               \
         handle_error(dest, _BOS_KNOWN(dest) ? BOS(dest) : dmax,                \
